@@ -29,6 +29,9 @@ func verifUF1(name string, x int) int
 func verifUF2(name string, x, y int) int
 func verifKnown(id, label string, cond bool)
 func verifOrderFree()
+func verifOutput(s string)
+func verifOrderInsertion()
+func verifOrderDeviations() int
 func verifCapNondet()
 func verifPrint(label string, v interface{})
 func verifSymbolic() bool
@@ -81,6 +84,7 @@ var (
 	verifUFs     []verifUFVal
 	verifFailed  []string
 	verifCovers  []string
+	verifOutputs []string
 	verifKnownOK = map[string]bool{}
 )
 
@@ -93,7 +97,7 @@ func verifLoad(path string) (*verifReplayFile, error) {
 	if err := json.Unmarshal(b, &f); err != nil {
 		return nil, err
 	}
-	verifVec, verifPos, verifUFs, verifFailed, verifCovers = f.Nondet, 0, f.UF, nil, nil
+	verifVec, verifPos, verifUFs, verifFailed, verifCovers, verifOutputs = f.Nondet, 0, f.UF, nil, nil, nil
 	return &f, nil
 }
 
@@ -193,6 +197,9 @@ func verifUF1(name string, x int) int    { return verifUFLookup(name, uint64(x))
 func verifUF2(name string, x, y int) int { return verifUFLookup(name, uint64(x), uint64(y)) }
 func verifKnown(id, label string, cond bool) {}
 func verifOrderFree()                       {}
+func verifOrderDeviations() int            { return 0 }
+func verifOrderInsertion()                 {}
+func verifOutput(s string)                 { verifOutputs = append(verifOutputs, s) }
 func verifCapNondet()                       {}
 func verifPrint(label string, v interface{}) { fmt.Fprintf(os.Stderr, "[verifPrint] %%s: %%v\n", label, v) }
 func verifSymbolic() bool                   { return false }
